@@ -128,6 +128,17 @@ CHECKS = {
             "words over H, S, CZ matrices (sampled in quick, exhaustive in thorough): from_op_list, inverse, powers, tableau "
             "then/inverse, decompositions, action on basis states.",
             "Group enumeration by BFS over generator matrices modulo phase (vf/refmodel/pauli.py); n<=5.", "DESIGN.md 5/C13"),
+    "C11": ("exploration", "runtime monitor on to_json/read_json, repr, hash/==, qid ordering, copy and pickle (incl. a child interpreter with another hash seed); stored corpus + field-by-field structural diff as oracle",
+            "Exhaustive over the corpus: every stored .json/.json_inward document of the five packages must read to the value "
+            "its paired .repr evaluates to (and plain .json values re-serialize and read back equal). Generated values (142 typed "
+            "generators covering 207 of 213 registered classes, repr-literal mutation of stored examples, nesting to depth 3 "
+            "with shared FrozenCircuits) are round-tripped through JSON and eval(repr) and compared by ==, hash, repr, type and "
+            "a field-by-field structural diff that does not go through __eq__ (pool gates also against catalogue matrices), so "
+            "a lossy field cannot hide behind a lenient equality; equality/hash contract on near-duplicate pools; qid ordering "
+            "laws on mixed triples; copy/deepcopy/pickle after the hash was cached, incl. unpickling in a child process with a "
+            "different PYTHONHASHSEED.",
+            "Classes the packages list as not serializable are excluded; lazily cached attributes are whitelisted with source "
+            "references in the driver.", "DESIGN.md 5/C11"),
     "C12": ("exploration", "runtime monitor on CircuitOperation trees (unitary, keys, scripted-seed outcome distributions, unrolled forms, composing constructors); independently flattened reference program as oracle",
             "Abstract block trees (depth 0-3; repetitions 0/1/2/3/-1/-2; explicit, default or disabled repetition ids; qubit maps; "
             "key maps; measurements; key and sympy controls bound inside or outside their block, incl. shadowing; zero-qubit "
